@@ -169,20 +169,46 @@ Fixpoint zip_all (P : tables) (xs ys : list value) : bool :=
   end.
 
 (* executor.rs:1929  handle_equal(count): pops `count` values, `values.reverse()`, then
-     all_equal = values.iter().all(|v| values_equal(first, v));  result = first.clone() or nil.
+     all_equal = values.iter().all(|v| values_equal(first, v));
+     result = if all_equal { Value::ok() } else { Value::nil() }        (fix b200cbf: a verdict)
    `values[0]` panics for count = 0 (the compiler only ever emits Equal(2)). The stack is modelled
    with its top at the head of the list. *)
-Definition nil_value : value := VTuple 0 [].
+Definition nil_value : value := VTuple 0 [].   (* value.rs:37  Value::nil(): Tuple(NIL = 0, []) *)
+Definition ok_value : value := VTuple 1 [].    (* value.rs:42  Value::ok():  Tuple(OK = 1, [])  *)
 Definition handle_equal (P : tables) (count : nat) (stack : list value) : outcome (list value) :=
   if Nat.ltb (length stack) count then Err StackUnderflow
   else
     let values := rev (firstn count stack) in
     match values with
-    | [] => Panic 1944
+    | [] => Panic 1943
     | first :: _ =>
         let all_equal := forallb (values_equal P first) values in
-        Val ((if all_equal then first else nil_value) :: skipn count stack)
+        Val ((if all_equal then ok_value else nil_value) :: skipn count stack)
     end.
+
+(* value.rs:52  is_nil: Tuple(id, fields) with id == NIL && fields.is_empty() *)
+Definition is_nil (v : value) : bool :=
+  match v with VTuple O [] => true | _ => false end.
+
+(* executor.rs handle_not: nil -> Ok, anything else -> nil *)
+Definition handle_not (stack : list value) : outcome (list value) :=
+  match stack with
+  | [] => Err StackUnderflow
+  | v :: rest => Val ((if is_nil v then ok_value else nil_value) :: rest)
+  end.
+
+(* pattern.rs:213-262 generate_pattern_code: every pin (`&x`: ..Load x; Equal(2)), literal
+   (..Constant k; Equal(2)) and repeated binder (..Get path; Pick 1; Get path'; Equal(2)) is
+   followed by `Not` and a JumpIf to the failure address; JumpIf (executor.rs handle_jump_if)
+   jumps exactly when the popped value is not nil. The requirement is met -- the pattern goes
+   on -- iff that jump is NOT taken. `a` is the value pushed first, `b` the one on top. *)
+Definition pin_matches (P : tables) (a b : value) : outcome bool :=
+  s1 <- handle_equal P 2 [b; a] ;;
+  s2 <- handle_not s1 ;;
+  match s2 with
+  | [] => Err StackUnderflow
+  | v :: _ => Val (is_nil v)       (* jump to `fail` iff not nil; so: matches iff nil here *)
+  end.
 
 (* ---------------------------------------------------------------- erasure (the specification) *)
 
